@@ -328,7 +328,7 @@ def check_class(ctx, R, cls, rules=None):
                 elif not (cname == 'Stream' and mname == '_emit'):
                     returned = any(x.kind == 'RETURN' and has(x.b, emtag) for x in evs[i:]) or \
                         any(x.kind == 'LADD' and has(x.b, emtag) for x in evs[j:]) and \
-                        any(x.kind == 'RETURN' for x in evs[i:])
+                        (any(x.kind == 'RETURN' for x in evs[i:]) or status == 'loopcut')    # (the return lies beyond the unrolling cut)
                     table_exc = (cname, mname) in DROPPED_EMIT_OK
                     if table_exc:
                         R.table('DROPPED_EMIT_OK', {'%s.%s' % k: v for k, v in DROPPED_EMIT_OK.items()})
